@@ -430,7 +430,9 @@ impl<'a> G<'a> {
         match k {
             0 | 1 => { let s = self.pick(&["0", "1", "42", "100", "0ffx", "007", "10", "00", "1Ax", "0FFX", "999999999"]); self.mark(s, MK::IntOperand); self.tp(); }
             2 => self.mvar(true),
-            3 => { let w = self.pick(&["abc", "x1", "txt", "é", "a b c", "1 2 3", "x.y", "a_1 b", "rate", "size", "SCALE", "value", "base", "type", "and1", "or_x", "nex", "eq1", "inx", "NOTE", "gex", "lte", "one", "line", "online", "engine", "alone", "gone", "nine", "Andorra", "legend", "origin"]); if w.chars().all(|c| c.is_ascii_alphanumeric() || c == '_') { self.mark(w, MK::Word); } else { self.p(w); } }
+            3 => { let w = self.pick(&["abc", "x1", "txt", "é", "a b c", "1 2 3", "x.y", "a_1 b", "rate", "size", "SCALE", "value", "base", "type", "and1", "or_x", "nex", "eq1", "inx", "NOTE", "gex", "lte", "one", "line", "online", "engine", "alone", "gone", "nine", "Andorra", "legend", "origin", "Anna Lee", "no one", "x a", "abc all", "go online", "a line", "1 e", "an angel", "in1 a"]); if w.chars().all(|c| c.is_ascii_alphanumeric() || c == '_') { self.mark(w, MK::Word); } else if w.chars().all(|c| c.is_ascii_alphanumeric() || c == '_' || c == ' ') && w.contains(|c: char| c.is_ascii_alphabetic()) && !w.starts_with(|c: char| c.is_ascii_digit()) {
+                // several words: each is plain text (the blanks between them belong to the operand)
+                let mut first = true; for piece in w.split(' ') { if !first { self.p(" "); } first = false; self.mark(piece, MK::Word); } } else { self.p(w); } }
             4 => { self.feat("eval-parens"); self.mark("(", MK::Op("LPAREN")); self.ows(); self.eval_expr(float, false); self.gap_after_expr(); self.mark(")", MK::Op("RPAREN")); }
             5 => { self.user_call(2); self.p(" "); }
             6 => { self.d_inc(); self.builtin_call(2); self.depth -= 1; }
